@@ -136,6 +136,24 @@ func init() {
 					}
 					return o.Ser, true
 				})
+			case "build":
+				// a constructor call (the Build op's own code path) and the serialisation of what it returns
+				bargs := im
+				calls = append(calls, func() ([]byte, bool) {
+					r := buildOnce(s, bargs)
+					delete(r, "#val")
+					ok, _ := r["ok"].(bool)
+					sok, _ := r["serok"].(bool)
+					if !ok || !sok {
+						return nil, false
+					}
+					si, _ := r["ser"].([]int)
+					out := make([]byte, len(si))
+					for k, x := range si {
+						out[k] = byte(x)
+					}
+					return out, true
+				})
 			case "int":
 				fn, v, sz := im.Str("fn"), im.Int("value"), im.Int("size")
 				calls = append(calls, func() ([]byte, bool) { ok, b := encInt(fn, v, sz); return b, ok })
